@@ -39,6 +39,7 @@ EDGE_KINDS = {
     "visual_range": ue.VisualRange,
     "prior_tag_p": ue.PriorTagP,
     "robust_odometry_se2": ue.RobustOdometrySE2,
+    "distance_late": ue.DistanceEdgeLate,
 }
 
 
@@ -355,11 +356,15 @@ def gen_opt_workload(rng, opts=None):
         "nonunit_quats": 0.0,
         "satellite_pose": 0.0,
         "rank_deficient_information": 0.0,
+        "huge_scale": 0.0,
     }
     o.update(opts or {})
     family = rng.choice(o["families"])
     meta = {"family": family}
     scale = 10.0 ** rng.choice([-3, -1, 0, 0, 0, 1, 3]) if rng.random() < 0.4 else 1.0
+    if o["huge_scale"] and rng.random() < o["huge_scale"]:
+        scale = 10.0 ** rng.choice([150, 180, 200])  # squared errors overflow: chi^2 is inf from the start
+        meta["huge_scale"] = True
     meta["scale"] = scale
     noise_class = rng.choice(o["init_noise"])
     meta["init_noise"] = noise_class
